@@ -30,7 +30,7 @@ THEOREMS = ["Cog.Builder." + t for t in [
     "C17_array_to_append_same_target", "C17_map_to_index_same_target", "C17_unfold_boolean_same_target",
     "C17_struct_fields_as_options_same_targets", "C17_struct_fields_as_arguments_same_targets",
     "C17_disjunction_as_options_same_target", "C17_disjunction_index_out_of_range_unchanged",
-    "C17_disjunction_index_out_of_range_panicked_before_fix",
+    "C17_disjunction_index_out_of_range_panicked_before_fix", "C17_rule_argument_private_since_fix",
     "C17_builder_rule_preserves", "C17_option_rule_preserves", "C17_seq", "C17_seq_counterexample",
     "C17_seq_counterexample_shared_pointer", "C17_seq_counterexample_unfold_after_index",
     "C17_frame_norules_partial", "C17_frame_norules_counterexample", "C17_frame_counterexample_shared_pointer",
@@ -44,7 +44,7 @@ WITNESSES = ["dup-option-default", "dup-builder-default", "dismissed", "rename-a
 MUST_PASS = {"dup-option-default", "dup-builder-default"}
 # deterministic regression inputs without a Lean witness term: the real code must pass the oracle and
 # agree with the model (request through the driver)
-MUST_PASS_PINNED = ["merge-into-3-segments", "disjunction-index-out-of-range"]
+MUST_PASS_PINNED = ["merge-into-3-segments", "disjunction-index-out-of-range", "add-assignment-two-options-rename-one"]
 FIXED_IDS = {"C17/duplicate-option/default-dropped", "C17/duplicate-builder/option-defaults-dropped"}
 GO_ONLY_PINNED = ["compose-then-initialize"]
 FILES = HARNESS_BASE + ["vir_builders.go", "c16_*.go", "c17_*.go"]
